@@ -63,6 +63,11 @@ pub trait Fam: Sized + Send + Sync + 'static {
         protocol: mqtt_proto::Protocol,
     ) -> impl Future<Output = Result<Self::Packet, Self::Error>>;
 
+    /// Every public per-body / per-property-set decoder called directly on `b` (with the headers
+    /// `hd`, `rem` where one is needed): (entry point, packet to walk if it returned a value).
+    /// Panics propagate to the caller's guard.
+    fn sub_decoders(b: &[u8], hd: u8, rem: u32) -> Vec<(&'static str, Option<Self::Packet>)>;
+
     fn io_kind(e: &Self::Error) -> Option<io::ErrorKind> {
         match Self::as_common(e) {
             Some(mqtt_proto::Error::IoError(k, _)) => Some(*k),
@@ -304,6 +309,36 @@ impl Fam for V3 {
     }
     fn expect_err(v: &Viol) -> Option<Self::Error> {
         common_expect(v)
+    }
+    fn sub_decoders(b: &[u8], hd: u8, rem: u32) -> Vec<(&'static str, Option<Self::Packet>)> {
+        use crate::env::run_ready as rr;
+        let mut out: Vec<(&'static str, Option<Self::Packet>)> = Vec::new();
+        let header = v3::Header::new_with(hd, rem).ok();
+        let mut r: &[u8] = b;
+        out.push(("v3::Connect::decode_async", rr(v3::Connect::decode_async(&mut r)).and_then(|x| x.ok()).map(Into::into)));
+        let mut r: &[u8] = b;
+        out.push(("v3::Connack::decode_async", rr(v3::Connack::decode_async(&mut r)).and_then(|x| x.ok()).map(Into::into)));
+        let mut r: &[u8] = b;
+        out.push(("v3::Subscribe::decode_async", rr(v3::Subscribe::decode_async(&mut r, rem as usize)).and_then(|x| x.ok()).map(Into::into)));
+        let mut r: &[u8] = b;
+        out.push(("v3::Suback::decode_async", rr(v3::Suback::decode_async(&mut r, rem as usize)).and_then(|x| x.ok()).map(Into::into)));
+        let mut r: &[u8] = b;
+        out.push(("v3::Unsubscribe::decode_async", rr(v3::Unsubscribe::decode_async(&mut r, rem as usize)).and_then(|x| x.ok()).map(Into::into)));
+        if let Some(h) = header {
+            let mut r: &[u8] = b;
+            out.push(("v3::Publish::decode_async", rr(v3::Publish::decode_async(&mut r, h)).and_then(|x| x.ok()).map(Into::into)));
+        }
+        for p in [mqtt_proto::Protocol::V310, mqtt_proto::Protocol::V311, mqtt_proto::Protocol::V500] {
+            let mut r: &[u8] = b;
+            out.push(("v3::Connect::decode_with_protocol", rr(v3::Connect::decode_with_protocol(&mut r, p)).and_then(|x| x.ok()).map(Into::into)));
+        }
+        let mut r: &[u8] = b;
+        let _ = rr(mqtt_proto::Protocol::decode_async(&mut r));
+        out.push(("Protocol::decode_async", None));
+        let mut r: &[u8] = b;
+        let _ = rr(mqtt_proto::decode_raw_header(&mut r));
+        out.push(("decode_raw_header", None));
+        out
     }
     fn type_nibble(p: &Self::Packet) -> u8 {
         use v3::Packet::*;
@@ -653,6 +688,69 @@ impl Fam for V5 {
             Viol::BadPayloadFormat => E::InvalidPayloadFormat,
             _ => return None,
         })
+    }
+    fn sub_decoders(b: &[u8], hd: u8, rem: u32) -> Vec<(&'static str, Option<Self::Packet>)> {
+        use crate::env::run_ready as rr;
+        use v5::PacketType as T;
+        let mut out: Vec<(&'static str, Option<Self::Packet>)> = Vec::new();
+        macro_rules! body {
+            ($name:literal, $ty:ty, $control:expr) => {
+                if let Ok(h) = v5::Header::new_with($control, rem) {
+                    let mut r: &[u8] = b;
+                    out.push(($name, rr(<$ty>::decode_async(&mut r, h)).and_then(|x| x.ok()).map(Into::into)));
+                }
+            };
+        }
+        body!("v5::Connect::decode_async", v5::Connect, 0x10);
+        body!("v5::Connack::decode_async", v5::Connack, 0x20);
+        body!("v5::Publish::decode_async", v5::Publish, if hd >> 4 == 3 { hd } else { 0x32 });
+        body!("v5::Puback::decode_async", v5::Puback, 0x40);
+        body!("v5::Pubrec::decode_async", v5::Pubrec, 0x50);
+        body!("v5::Pubrel::decode_async", v5::Pubrel, 0x62);
+        body!("v5::Pubcomp::decode_async", v5::Pubcomp, 0x70);
+        body!("v5::Subscribe::decode_async", v5::Subscribe, 0x82);
+        body!("v5::Suback::decode_async", v5::Suback, 0x90);
+        body!("v5::Unsubscribe::decode_async", v5::Unsubscribe, 0xA2);
+        body!("v5::Unsuback::decode_async", v5::Unsuback, 0xB0);
+        body!("v5::Disconnect::decode_async", v5::Disconnect, 0xE0);
+        body!("v5::Auth::decode_async", v5::Auth, 0xF0);
+        macro_rules! props {
+            ($name:literal, $ty:ty, $pt:expr) => {{
+                let mut r: &[u8] = b;
+                let _ = rr(<$ty>::decode_async(&mut r, $pt));
+                out.push(($name, None));
+            }};
+        }
+        props!("v5::ConnectProperties::decode_async", v5::ConnectProperties, T::Connect);
+        props!("v5::ConnackProperties::decode_async", v5::ConnackProperties, T::Connack);
+        props!("v5::PublishProperties::decode_async", v5::PublishProperties, T::Publish);
+        props!("v5::PubackProperties::decode_async", v5::PubackProperties, T::Puback);
+        props!("v5::PubrecProperties::decode_async", v5::PubrecProperties, T::Pubrec);
+        props!("v5::PubrelProperties::decode_async", v5::PubrelProperties, T::Pubrel);
+        props!("v5::PubcompProperties::decode_async", v5::PubcompProperties, T::Pubcomp);
+        props!("v5::SubscribeProperties::decode_async", v5::SubscribeProperties, T::Subscribe);
+        props!("v5::SubackProperties::decode_async", v5::SubackProperties, T::Suback);
+        props!("v5::UnsubscribeProperties::decode_async", v5::UnsubscribeProperties, T::Unsubscribe);
+        props!("v5::UnsubackProperties::decode_async", v5::UnsubackProperties, T::Unsuback);
+        props!("v5::DisconnectProperties::decode_async", v5::DisconnectProperties, T::Disconnect);
+        props!("v5::AuthProperties::decode_async", v5::AuthProperties, T::Auth);
+        {
+            let mut r: &[u8] = b;
+            let _ = rr(v5::WillProperties::decode_async(&mut r));
+            out.push(("v5::WillProperties::decode_async", None));
+            for q in [mqtt_proto::QoS::Level0, mqtt_proto::QoS::Level2] {
+                let mut r: &[u8] = b;
+                let _ = rr(v5::LastWill::decode_async(&mut r, q, true));
+            }
+            out.push(("v5::LastWill::decode_async", None));
+        }
+        if let Ok(h) = v5::Header::new_with(0x10, rem) {
+            for p in [mqtt_proto::Protocol::V310, mqtt_proto::Protocol::V311, mqtt_proto::Protocol::V500] {
+                let mut r: &[u8] = b;
+                out.push(("v5::Connect::decode_with_protocol", rr(v5::Connect::decode_with_protocol(&mut r, h, p)).and_then(|x| x.ok()).map(Into::into)));
+            }
+        }
+        out
     }
     fn type_nibble(p: &Self::Packet) -> u8 {
         use v5::Packet::*;
